@@ -46,6 +46,25 @@ Proof. exact Paged.c10_paged_early_finish. Qed.
 Theorem c10_paged_failed_followup : forall (params : nat) (uc : list Paged.ctl) (size : N) (srv : list Paged.page) (s0 : Paged.stream) (k : nat) (l : list Paged.item) (s1 : Paged.stream) (fuel : nat) (s2 : Paged.stream), Paged.start params uc size srv = Some s0 -> Paged.take_items Paged.prepaired k s0 = (l, s1) -> Paged.st s1 = Paged.Active -> Paged.next Paged.prepaired fuel s1 = (s2, Paged.NErr) -> snd (fst (Paged.finish s2)) = Paged.cancelled.
 Proof. exact Paged.c10_paged_failed_followup. Qed.
 
+(* repair F48: a next() call given up while the PagedResults adapter asks for the next page leaves no page result behind - Paged.finish() is
+   the cancellation, and the stream ends there without sending anything further (the cookie is not used twice) *)
+Theorem c10_abandoned_switch : forall s s', Paged.abandon_at_switch true s = Some s' ->
+  Paged.res s' = None /\ snd (fst (Paged.finish s')) = Paged.cancelled /\
+  fst (Paged.next_after_abandon s') = Paged.mkS Paged.Done None None (Paged.saved_params s') (Paged.saved_ctrls s') (Paged.page_size s') (Paged.server s') (Paged.wire s') /\ snd (Paged.next_after_abandon s') = Paged.NNone /\
+  Paged.wire (fst (Paged.next_after_abandon s')) = Paged.wire s'.
+Proof. exact Paged.c10_abandoned_switch. Qed.
+Theorem c10_refuted_F48 :
+  let p1 := Paged.mkPage [Paged.Entry 1] (Paged.mkRes 0 [Paged.CPaged 0 [x01]]) in let p2 := Paged.mkPage [Paged.Entry 2] (Paged.mkRes 0 [Paged.CPaged 0 [x02]]) in let p3 := Paged.mkPage [Paged.Entry 3] (Paged.mkRes 0 [Paged.CPaged 0 []]) in
+  match Paged.start 7 [] 1 [p1; p2; p3] with None => False | Some s0 =>
+    let s1 := fst (Paged.next Paged.prepaired 5 s0) in
+    match Paged.abandon_at_switch false s1, Paged.abandon_at_switch true s1 with
+    | Some bad, Some good =>
+        snd (fst (Paged.finish bad)) = Paged.mkRes 0 [Paged.CPaged 0 [x01]] /\ snd (Paged.next_after_abandon bad) = Paged.NSome (Paged.Entry 3) /\
+        Paged.wire (fst (Paged.next_after_abandon bad)) = [Paged.mkReq 7 [Paged.CPaged 1 []]; Paged.mkReq 7 [Paged.CPaged 1 [x01]]; Paged.mkReq 7 [Paged.CPaged 1 [x01]]] /\
+        snd (fst (Paged.finish good)) = Paged.cancelled /\ snd (Paged.next_after_abandon good) = Paged.NNone /\ Paged.wire (fst (Paged.next_after_abandon good)) = [Paged.mkReq 7 [Paged.CPaged 1 []]; Paged.mkReq 7 [Paged.CPaged 1 [x01]]]
+    | _, _ => False end end.
+Proof. exact Paged.c10_refuted_F48. Qed.
+
 Print Assumptions c10_all_call_sequences.
 Print Assumptions c10_start_all_call_sequences.
 Print Assumptions c10_next_outside_active.
@@ -59,3 +78,5 @@ Print Assumptions c10_search_collects.
 Print Assumptions c10_items_exact.
 Print Assumptions c10_paged_early_finish.
 Print Assumptions c10_paged_failed_followup.
+Print Assumptions c10_abandoned_switch.
+Print Assumptions c10_refuted_F48.
